@@ -125,6 +125,7 @@ func (st *runState) body(ri *simcheck.RunInfo) {
 	s := st.s
 	t0 := time.Now()
 	sim := simrt.New(s.Sched, s.SchedSeed)
+	sim.SetPreempt(s.Preempt, s.SchedSeed)
 	defer sim.Close()
 	// the scripted result sets, in request order per client, are looked up by the driver per statement;
 	// each request installs its own script just before it runs (requests of one client are sequential,
@@ -409,6 +410,9 @@ func (st *runState) finish(ri *simcheck.RunInfo, sim *simrt.Sim, t0 time.Time, t
 	ri.Steps = sim.Steps
 	ri.SimNanos = int64(time.Since(t0))
 	ri.NonTrivial = faulty || sim.Multi > 0
+	if sim.Preempts > 0 {
+		ri.Faults["sched-preempt-between-sync-ops"] += int(sim.Preempts)
+	}
 	if len(reqLines) > 10 {
 		reqLines = reqLines[:10]
 	}
